@@ -1436,15 +1436,20 @@ def _handle_note(e, position, part, ongoing, prev_note, doc_order, prev_beam=Non
         tie_types = set(tie.attrib["type"] for tie in ties)
 
         if "stop" in tie_types:
-            tie_prev = ongoing.get(tie_key, None)
+            # several ties of the same pitch can be open in document order
+            # (e.g. in different voices of one measure): the tie that stops
+            # here is the one whose note ends where this note starts
+            open_ties = ongoing.get(tie_key, [])
+            candidates = [n for n in open_ties if n.end.t == position]
+            tie_prev = (candidates or open_ties or [None])[-1]
 
             if tie_prev:
                 note.tie_prev = tie_prev
                 tie_prev.tie_next = note
-                del ongoing[tie_key]
+                open_ties.remove(tie_prev)
 
         if "start" in tie_types:
-            ongoing[tie_key] = note
+            ongoing.setdefault(tie_key, []).append(note)
 
     notations = e.find("notations")
 
